@@ -187,6 +187,16 @@ def generate(tier, seed, stats):
         s["ctx"] = "deadline" if (i + seed) % 4 == 0 else "cancel"   # "the context's error", whatever it is
         out.append({"scen": s, "expect": scen[k].get("expect"), "expect_pinned": scen[k].get("expect_pinned"),
                     "labels": sorted(scen[k]["labels"])})
+    # scale: the same call on sources far beyond the model's bounds (thousands of entries in ONE batch, several
+    # batches of hundreds, a first index beyond 2^32); judged like every other call, from the recorded source and
+    # destination contents
+    big = [(5000, 1, 1 << 20, "inmem", "inmem"), (4500, 1000, 4096 * 44 + 1, "inmem", "wal"), (3000, (1 << 32) + 5, 20000, "wal", "inmem"),
+           (4097, 7, 1 << 22, "inmem", "inmem")][:(2, 4)[0 if tier == "quick" else 1]]
+    for n, first, bb, src, dst in big:
+        out.append({"scen": {"sid": len(out), "op": "logs", "n": n, "first": first, "sizes": [12 + (j % 5) for j in range(n)],
+                             "kind": "filled", "bb": bb, "xk": 0, "xi": 0, "src": src, "dst": dst, "prog": "buf", "call": "none",
+                             "k": 0, "seed": seed % 1000003, "seg": 1 << 20, "ctx": "cancel"},
+                    "expect": None, "expect_pinned": None, "labels": []})
     return out, complete
 
 
@@ -250,7 +260,7 @@ def judge(trace_path, wd, stats, chunks=None):
     return viols
 
 
-def selftest(trace_path, wd):
+def selftest(trace_path, wd, force_synthetic=False):
     """The judge must bite: a recorded call with ONE destination entry altered must be rejected (else exit 2)."""
     pick = fallback = None
     for ln in open(trace_path):
@@ -262,7 +272,11 @@ def selftest(trace_path, wd):
         if e["err"] == "nil" and e["closed"] and sum(1 for d in e["dst"] if d["st"] == "ok") == len(e["src"]):
             pick = e
             break
+    synthetic = False
+    if force_synthetic and (pick or fallback) is not None:
+        fallback, pick = (pick or fallback), None
     if pick is None and fallback is not None:
+        synthetic = True
         # the tree under test never copied >= 2 entries successfully: judge the judge on the call as it
         # should have gone (destination = the recorded source), so that the self-test cannot mask a violation
         pick = json.loads(json.dumps(fallback))
@@ -304,8 +318,12 @@ def selftest(trace_path, wd):
     got = {}
     for v in pl["v"]:
         got.setdefault(v["sid"], set()).add(v["clause"])
+    if -1 in got and not synthetic:
+        # the recorded call itself is rejected (the main judging reports that): judge the judge on the call as it should
+        # have gone, so that the self-test can neither mask nor be broken by a violation of the tree under test
+        return selftest(trace_path, wd, force_synthetic=True)
     if -1 in got:
-        raise Inconclusive("self-test: the unaltered recorded call is rejected: %s" % sorted(got[-1]))
+        raise Inconclusive("self-test: the unaltered reference call is rejected: %s" % sorted(got[-1]))
     for sid, clause in want.items():
         if clause not in got.get(sid, set()):
             raise Inconclusive("self-test: MigrateTrace accepted a trace with an altered observation (%s expected for "
